@@ -29,6 +29,9 @@ def main():
     sdir = os.path.join(VERIF, "seeded", name)
     meta = json.load(open(os.path.join(sdir, "meta.json")))
     checks = checks or [meta["property"]]
+    if meta.get("obsolete"):
+        print(meta["property"], tier, "obsolete:", meta["obsolete"])
+        return
     patch = os.path.join(sdir, "patch.diff")
     env = dict(os.environ)
     wt = None
